@@ -52,9 +52,12 @@ def tie(tag, module_path, funcs, tmpl_name, theorems, imports=""):
     path = os.path.join(d, tag + ".v")
     defs = {}
     untranslated = {}
-    for fn in funcs:
+    # funcs: names in module_path, or (module path, name) pairs for functions of other modules
+    where = [(f if isinstance(f, tuple) else (module_path, f)) for f in funcs]
+    funcs = [f for _, f in where]
+    for mod_, fn in where:
         try:
-            defs.update(translate_pylite.translate(os.path.join(core.REPO, module_path), [fn]))
+            defs.update(translate_pylite.translate(os.path.join(core.REPO, mod_), [fn]))
         except translate_pylite.Unsupported as exc:
             untranslated[fn] = str(exc)      # its theorems (and those that use it) will fail to compile
         except (OSError, SyntaxError) as exc:
@@ -87,7 +90,7 @@ def tie(tag, module_path, funcs, tmpl_name, theorems, imports=""):
                 failed.setdefault(t, "coqc failed outside the template sections: " + out[-500:])
             break
         why = "".join("translator failed closed on %s: %s; " % (f, m) for f, m in untranslated.items()
-                      if "src_" + f in sections[hit])
+                      if "src_" + f.replace(".", "_") in sections[hit])
         for t in re.findall(r"^\s*Theorem\s+(\w+)", sections[hit], re.M):
             failed.setdefault(t, "NOT re-proved: %scoqc failed in %s: %s" % (why, name, out[-500:]))
         sections[hit] = ""
@@ -107,15 +110,18 @@ def tie(tag, module_path, funcs, tmpl_name, theorems, imports=""):
     return res
 
 
-COORD_FUNCS = ["check_region", "get_region", "pad_region", "spacing_to_size", "line_coordinates", "shape_to_spacing"]
+COORD_FUNCS = ["check_region", "get_region", "pad_region", "spacing_to_size", "line_coordinates", "shape_to_spacing",
+               "grid_coordinates", "inside"]
 COORD_THEOREMS = ["src_check_region_eq", "src_get_region_eq", "src_pad_region_scalar_eq", "src_pad_region_pair_eq",
-                  "src_spacing_to_size_eq", "src_line_coordinates_eq", "src_shape_to_spacing_eq"]
+                  "src_spacing_to_size_eq", "src_line_coordinates_eq", "src_shape_to_spacing_eq",
+                  "src_grid_coordinates_eq", "src_inside_eq"]
+COORD_IMPORTS = "From Verde Require Import Proofs.PyLiteBridge."
 
 
 def coord_obligations():
     """returns list of (name, ok, detail)"""
     return tie("CoordSrc", os.path.join("verde", "coordinates.py"), COORD_FUNCS, "pylite_coordinates.v.tmpl",
-               COORD_THEOREMS)
+               COORD_THEOREMS, COORD_IMPORTS)
 
 
 LON_FUNCS = ["_check_geographic_region", "_check_geographic_coordinates", "longitude_continuity"]
@@ -140,8 +146,9 @@ def utils_obligations():
                UTILS_THEOREMS, UTILS_IMPORTS)
 
 
-CHECKS_FUNCS = ["check_data_names", "check_extra_coords_names"]
-CHECKS_THEOREMS = ["src_check_data_names_eq", "src_check_extra_coords_names_eq"]
+CHECKS_FUNCS = ["check_data_names", "check_extra_coords_names", "check_data", "check_coordinates", "check_fit_input"]
+CHECKS_THEOREMS = ["src_check_data_names_eq", "src_check_extra_coords_names_eq", "src_check_data_eq",
+                   "src_check_coordinates_eq", "src_check_fit_input_eq"]
 CHECKS_IMPORTS = "From Verde Require Import Model.Checks Proofs.PyLiteBridge."
 
 
@@ -150,3 +157,45 @@ def checks_obligations():
     `obligations = pylite_tie.checks_obligations` in harness/c20.py"""
     return tie("ChecksSrc", os.path.join("verde", "base", "utils.py"), CHECKS_FUNCS, "pylite_checks.v.tmpl",
                CHECKS_THEOREMS, CHECKS_IMPORTS)
+
+
+TREND_FUNCS = ["polynomial_power_combinations"]
+TREND_THEOREMS = ["src_polynomial_power_combinations_neg", "src_polynomial_power_combinations_eq"]
+TREND_IMPORTS = "From Verde Require Import Model.Trend Proofs.PyLiteBridge."
+
+
+def trend_obligations():
+    """verde/trend.py polynomial_power_combinations against Model/Trend.v (property C03); to hook it:
+    `obligations = pylite_tie.trend_obligations` in harness/c03.py"""
+    return tie("TrendSrc", os.path.join("verde", "trend.py"), TREND_FUNCS, "pylite_trend.v.tmpl",
+               TREND_THEOREMS, TREND_IMPORTS)
+
+
+CV_FUNCS = [(os.path.join("verde", "base", "base_classes.py"), "BaseBlockCrossValidator.__init__"),
+            "BlockKFold.__init__", "BlockShuffleSplit.__init__"]
+CV_THEOREMS = ["src_BaseBlockCrossValidator_init_eq", "src_BlockKFold_init_eq", "src_BlockShuffleSplit_init_eq"]
+CV_IMPORTS = ("From Coq Require Import ZifyBool.\n"
+              "From Verde Require Import Model.CrossVal Proofs.PyLiteBridge.")
+
+
+def cv_obligations():
+    """argument validation of the blocked cross-validators' constructors (verde/model_selection.py,
+    verde/base/base_classes.py) against the rejections of Model/CrossVal.v"""
+    return tie("CVSrc", os.path.join("verde", "model_selection.py"), CV_FUNCS, "pylite_cv.v.tmpl",
+               CV_THEOREMS, CV_IMPORTS)
+
+
+def c11_obligations():
+    return utils_obligations() + cv_obligations()
+
+
+CHAIN_FUNCS = ["Chain.predict", (os.path.join("verde", "base", "utils.py"), "check_data")]
+CHAIN_THEOREMS = ["src_Chain_predict_eq", "chain_predict_from_fold"]
+CHAIN_IMPORTS = "From Verde Require Import Model.Chain Proofs.PyLiteBridge."
+
+
+def chain_obligations():
+    """verde/chain.py Chain.predict against Model/Chain.v (property C06); to hook it:
+    `obligations = pylite_tie.chain_obligations` in harness/c06.py"""
+    return tie("ChainSrc", os.path.join("verde", "chain.py"), CHAIN_FUNCS, "pylite_chain.v.tmpl",
+               CHAIN_THEOREMS, CHAIN_IMPORTS)
